@@ -399,18 +399,40 @@ def replay(behaviours, c, tag, seed):
             r = subprocess.run(cmd, stdout=subprocess.PIPE, stderr=subprocess.PIPE, text=True, timeout=1800)
         except subprocess.TimeoutExpired:
             raise ToolError("harness timed out")
-        if r.returncode not in (0, 3):
+        if r.returncode not in (0, 3) and r.returncode >= 0:
             raise ToolError("harness failed (%d): %s" % (r.returncode, r.stderr[-2000:]))
         done = set()
+        open_run, last_call = None, None
         with open(outp) as f, open(trace, "a") as g:
             for line in f:
                 g.write(line)
+                if '"ev":"reset"' in line:
+                    open_run = json.loads(line).get("run")
+                elif '"ev":"call"' in line:
+                    last_call = line
                 if '"ev":"end"' in line:
                     e = json.loads(line)
                     done.add(e["run"])
+                    open_run = None
                     stats["runs"] += 1
                     stats["misses"] += e.get("misses", 0)
                     stats["hung"] += 1 if e.get("hung") else 0
+            if r.returncode < 0:
+                # the process was killed by a signal: the code under test aborted it (a panic in a destructor
+                # while unwinding, say).  That is data, not a tool failure: the run in progress ends with a
+                # `hang` event (the call did not return), the remaining behaviours go to a fresh process.
+                if open_run is None:
+                    raise ToolError("harness killed by signal %d between runs: %s" % (-r.returncode, r.stderr[-1500:]))
+                lc = json.loads(last_call) if last_call else {}
+                who = "process aborted (signal %d) in %s: %s" % (-r.returncode, lc.get("op", "?"), r.stderr.strip().splitlines()[-1][:200] if r.stderr.strip() else "")
+                ev = dict(ev="hang", who=who)
+                if lc.get("unw"):
+                    ev["p"] = "C10"      # a scope released by unwinding: restoring the local context is C10's business
+                g.write(json.dumps(ev, separators=(",", ":")) + "\n")
+                g.write(json.dumps(dict(ev="end", run=open_run, misses=0, hung=True), separators=(",", ":")) + "\n")
+                done.add(open_run)
+                stats["runs"] += 1
+                stats["hung"] += 1
         todo = [(i, b) for i, b in todo if i not in done]
         if r.returncode == 0:
             if todo:
